@@ -68,10 +68,12 @@ pub fn substance_from_formula(
         unit: molar_mass_unit,
     };
 
+    let mut any_symbols = false;
     let mut iter = TokenIterator::new(formula).peekable();
     while let Some(token) = iter.next() {
         match token {
             Token::Symbol(ref sym) if symbols.contains_key(sym) => {
+                any_symbols = true;
                 let count = match iter.peek() {
                     Some(&Token::Count(n)) => {
                         iter.next().unwrap();
@@ -91,6 +93,10 @@ pub fn substance_from_formula(
             }
             _ => return None,
         }
+    }
+    // An empty name is not a formula.
+    if !any_symbols {
+        return None;
     }
 
     let mut props = BTreeMap::new();
